@@ -44,6 +44,17 @@ CLAIMED.update({
         "budgets at the edge of the initial design, degenerate targets) - any exception escaping optimize() is a failing input; definedness theorems for the modelled mechanisms in Props/C09.lean. "
         "No model can prove absence of internal errors in all of pybads' NumPy code; the unmodelled part is covered only as far as runs are executed.",
    design="5 / C09", technique="Lean 4 definedness model of named rare paths + forced-path execution (partial)"),
+ "C01": dict(
+   text="Theorems (Props/C01.lean): inverse_in_orig_box (the original-space image of ANY internal point lies in the original hard box - clamp after an arbitrary ginv), snap_close, search_box_inside_hard_box, "
+        "search_box_nonempty, gridStart_ok_or_error, filter_in_box (C17), and pipeline_calls_in_box: for every sequence of candidate sets and picks (all seeds/landscapes/ES/poll/Sobol outcomes) every evaluated internal point "
+        "lies in [lb, ub]. Correspondence: call provenance of traced runs replayed through Pipe.step (each evaluated point is the start point, a row of the model's filtered set, or an earlier point; search-box bounds recomputed "
+        "by the model), x = clamp(ginv(u)) checked on every call; box predicates (Lean inBoxB) on every target call, constraint call, log row and returned solution.",
+   design="5 / C01", technique="Lean 4 invariant over an oracle-driven pipeline model + provenance trace refinement"),
+ "C02": dict(
+   text="Theorems (Props/C02.lean): filtered_feasible, pipeline_calls_feasible (for every sequence of candidate sets/picks and every deterministic constraint oracle, every evaluated point is feasible), construct_ok, "
+        "construct_rejects_infeasible_start, run_from_construct_feasible. Correspondence: provenance replay through Pipe.step with the constraint answers recorded from the run; the user's constraint is re-asked at every point passed "
+        "to the target and at the returned x; construction with start points infeasible before/after snapping must raise ValueError with zero target calls.",
+   design="5 / C02", technique="Lean 4 invariant over the pipeline model + provenance trace refinement"),
 })
 
 NA = {
